@@ -516,3 +516,23 @@ def isnone_or_dir(pe, d):
 
 
 NS['isnone_or_dir'] = isnone_or_dir
+
+
+def is_f32(pe, a):
+	a = pe.deref(a) if isinstance(a, Ref) else a
+	return isinstance(a, SSeq) and a.T is TF32
+
+
+def lens_ok(pe, query, refs):
+	"""machine-integer precondition of the kernel for every pair: len(query) + len(ref) < 2^62"""
+	from pyvc.values import Record
+	q = _arr(query)
+	rv = pe.deref(refs)
+	if isinstance(rv, Record):
+		return SBool(q.length + pe.deref(rv.fields['values']).length < 2 ** 62)
+	r = z3.Int(fresh_name('r'))
+	return SBool(z3.ForAll([r], z3.Implies(z3.And(0 <= r, r < rv.length), q.length + rv.at(r).length < 2 ** 62)))
+
+
+NS['is_f32'] = is_f32
+NS['lens_ok'] = lens_ok
